@@ -65,7 +65,7 @@ static void run_fit(uint64_t idx) {
 int main(int argc, char** argv) {
   vf::Harness h("C12", argc, argv);
   H = &h;
-  h.timeout_s = 120;
+  h.timeout_s = 40;
   h.add_space("tsan-walk", 7 * 8 * 3, run_walk);
   h.add_space("tsan-fit", h.thorough ? 40 : 12, run_fit);
   return h.main();
